@@ -38,6 +38,11 @@
     {"tmp-symbol-shadowing-iterator", "variables x[3]; constraints for i=1:2; z=x(i); for i=3:3; z+x(i)>=0; end end end", NULL},
     {"nested-loops-and-sum", "constants n=3; variables x[n][n]; constraints for i=1:n; for j=i:n; x(i,j)=x(j,i); end; sum(k=1:n, x(i,k)^k)<=i; end end", NULL},
     {"empty-loop", "variables x; constraints for i=3:1; x>=i; end; x<=0; end", NULL},
+    // ---- calls with constant arguments are folded when the text is read: every call has its own value
+    {"constant-calls-difference", "function g(a) return a^2+1; end variables x,y; minimize x+(g(2)-g(5)); constraints y-g(1)*g(3)<=0; end", "function g(a) return a^2+1; end variables x,y; minimize x+(5-26); constraints y-2*10<=0; end"},
+    {"constant-calls-two-arguments", "function h(a,b) return a*b-a; end variables x; constraints (h(2,3)-h(4,1))*x>=h(1,1)+h(3,5); end", "variables x; constraints (4-0)*x>=0+12; end"},
+    {"constant-calls-nested-and-vector", "function g(a) return 2*a+1; end function v(a) return (a;a+1); end variables x[2]; constraints x-(v(1)+v(4))=(g(g(1))-g(0);g(2)-g(3)); end", "variables x[2]; constraints x-((1;2)+(4;5))=(7-1;5-7); end"},
+    {"constant-calls-in-loop", "function g(a) return a*a; end variables x[3]; constraints for i=1:3; x(i)+g(i)-g(i+1)>=g(2)-g(1); end end", "variables x[3]; constraints x(1)+1-4>=3; x(2)+4-9>=3; x(3)+9-16>=3; end"},
     {"optional-semicolons", "variables x,y; minimize x constraints x>=0; for i=1:2; y>=i end y<=3 end", NULL},
     {"empty-constraints", "variables x; minimize x; constraints end", NULL},
     {"c-style-index", "variables x[3],M[2][3]; constraints x[0]+M[1][2]=M(2,3)+x(1); M[1]*x>=0; end", NULL},
